@@ -8,6 +8,7 @@ import (
 	"fmt"
 	"github.com/cockroachdb/errors"
 	"net"
+	"strings"
 	"sync"
 	"testing"
 	"time"
@@ -27,6 +28,8 @@ import (
 	"verif/pbt"
 	"verif/wire"
 )
+
+const panicMark = "PANIC IN THE SERVER INTERCEPTOR"
 
 type server struct {
 	mu   sync.Mutex
@@ -52,7 +55,18 @@ var (
 
 func TestMain(m *testing.M) {
 	lis := memlistener.NewMemoryListener()
-	gs := grpc.NewServer(grpc.UnaryInterceptor(middleware.UnaryServerInterceptor))
+	// (a panic inside the library's interceptor would kill the process with
+	// the server goroutine: an outer interceptor turns it into a status
+	// the check can see)
+	guard := func(ctx context.Context, req interface{}, info *grpc.UnaryServerInfo, handler grpc.UnaryHandler) (resp interface{}, err error) {
+		defer func() {
+			if x := recover(); x != nil {
+				resp, err = nil, grpcstatus.Errorf(codes.Internal, "%s: %v", panicMark, x)
+			}
+		}()
+		return handler(ctx, req)
+	}
+	gs := grpc.NewServer(grpc.ChainUnaryInterceptor(guard, middleware.UnaryServerInterceptor))
 	egrpc.RegisterEchoerServer(gs, srv)
 	go func() { _ = gs.Serve(lis) }()
 	dial := grpc.WithDialer(func(string, time.Duration) (net.Conn, error) { return lis.Dial("", "") })
@@ -143,6 +157,10 @@ func check(c *pbt.Case, r *pbt.R) {
 		}
 	}
 	got, raw, _ := call(e0)
+	if raw != nil && strings.Contains(raw.Error(), panicMark) {
+		r.Failf("the server interceptor panics on the handler's error", "%v\n%s", raw, c.Spec)
+		return
+	}
 	if got == nil || raw == nil {
 		r.Failf("the caller receives no error", "got=%v raw=%v\n%s", got, raw, c.Spec)
 		return
